@@ -380,41 +380,62 @@ async fn scenario(ctx: &Ctx, rng: &mut Rng, epmd: &net::EpmdTable, id: usize, sc
             wit(json!({"entries_before": before, "entries_after": after, "connection_registered": connected})),
         );
     }
-    // calls racing with the loss of the connection: the peer's socket goes away and calls are issued while the
-    // receiver task notices it and deregisters the connection; whatever each call returns, nothing may stay behind
-    peer_task.abort();
-    let _ = peer_task.await;
-    install_yields(&hits);
+    // calls racing with the loss of the connection: callers keep issuing short calls while the peer's socket goes
+    // away at an arbitrary moment and the receiver task deregisters the connection; whatever each call returns,
+    // nothing may stay behind
     {
+        // widen the window between registering a call and looking its connection up (an existing suspension point)
+        let h2 = hits.clone();
+        edp_client::verif::set_callback(Some(Arc::new(move |nm: &'static str| -> u32 {
+            if nm == "node:rpc:after_insert" {
+                let n = h2.fetch_add(1, Ordering::Relaxed);
+                return 1 + (n % 6) as u32;
+            }
+            0
+        })));
+    }
+    {
+        let stop_at = Instant::now() + Duration::from_millis(160);
         let mut hs = Vec::new();
-        for c in 0..10usize {
+        for c in 0..6usize {
             let node = node.clone();
             let peer_node = peer_node.clone();
             hs.push(tokio::spawn(async move {
-                if c > 0 {
-                    tokio::time::sleep(Duration::from_micros(150 * c as u64)).await;
+                let mut n = 0u64;
+                while Instant::now() < stop_at && n < 400 {
+                    let _ = node.rpc_call_raw_with_timeout(&peer_node, "m", "f", vec![OwnedTerm::Integer(-100 - c as i64)], Duration::from_micros([0u64, 50, 2000][c % 3])).await;
+                    n += 1;
+                    if n % 3 == 0 {
+                        tokio::task::yield_now().await;
+                    }
                 }
-                let _ = node.rpc_call_raw_with_timeout(&peer_node, "m", "f", vec![OwnedTerm::Integer(-100 - c as i64)], Duration::from_millis(80)).await;
+                n
             }));
         }
+        tokio::time::sleep(Duration::from_millis(5 + (seed % 60))).await;
+        peer_task.abort();
+        let _ = peer_task.await;
         let mut stalled = false;
+        let mut issued = 0u64;
         for h in hs {
-            if tokio::time::timeout(watchdog, h).await.is_err() {
-                stalled = true;
+            match tokio::time::timeout(watchdog, h).await {
+                Ok(Ok(n)) => issued += n,
+                _ => stalled = true,
             }
         }
         edp_client::verif::set_callback(None);
-        ctx.eval(10);
+        ctx.eval(issued);
+        ctx.count("calls_issued_around_a_disconnect", issued);
         if stalled {
             ctx.viol("C17:stall:disconnect-race", "a call issued while the connection was going away never returned", wit(json!({})));
         }
-        tokio::time::sleep(Duration::from_millis(40)).await;
+        tokio::time::sleep(Duration::from_millis(50)).await;
         let left = node.pending_rpc_count();
         if left != 0 {
             ctx.viol(
                 "C17:bookkeeping-left-behind:disconnect-race",
                 "calls issued while the peer's connection was being lost have all returned, yet the outstanding-call table is not empty",
-                wit(json!({"entries_left": left, "connection_still_registered": node.connections().contains_key(&peer_node)})),
+                wit(json!({"entries_left": left, "calls_issued": issued, "connection_still_registered": node.connections().contains_key(&peer_node)})),
             );
         }
     }
@@ -425,7 +446,7 @@ async fn scenario(ctx: &Ctx, rng: &mut Rng, epmd: &net::EpmdTable, id: usize, sc
 }
 
 pub fn run(ctx: &Ctx) {
-    ctx.rule("scenarios = 1..64 concurrent callers through one Node against a scripted rex peer x reply scripts (in order, reversed, shuffled, duplicated, some missing, some later than the caller's timeout, replies to unknown addressees, peer closes mid-run, mixed) + a second wave of calls that is outstanding while the peer delivers the first wave's late replies and repeats replies to completed calls + ten calls issued while the peer's socket goes away and the receiver deregisters the connection + a call to an unconnected node + a call whose request cannot be sent, on a current-thread runtime with seeded yields at the insert/send/remove and lookup/remove hooks and on a multi-thread runtime; oracle: every Ok result carries the caller's own id, every call ends, the outstanding-call table is empty at quiescence; evaluations = calls judged; distinct = distinct (script, caller count, runtime) combinations");
+    ctx.rule("scenarios = 1..64 concurrent callers through one Node against a scripted rex peer x reply scripts (in order, reversed, shuffled, duplicated, some missing, some later than the caller's timeout, replies to unknown addressees, peer closes mid-run, mixed) + a second wave of calls that is outstanding while the peer delivers the first wave's late replies and repeats replies to completed calls + six callers issuing short calls in a loop while the peer's socket goes away at a seeded moment and the receiver deregisters the connection + a call to an unconnected node + a call whose request cannot be sent, on a current-thread runtime with seeded yields at the insert/send/remove and lookup/remove hooks and on a multi-thread runtime; oracle: every Ok result carries the caller's own id, every call ends, the outstanding-call table is empty at quiescence; evaluations = calls judged; distinct = distinct (script, caller count, runtime) combinations");
     ctx.assume("call timeouts 120..300 ms real time; a call returning later than timeout + 1.5 s is inconclusive, only the 20 s watchdog is a violation");
     let mut rng = Rng::derive(ctx.seed, 17, 1);
     let n = ctx.pick(36usize, 3000usize);
